@@ -1,4 +1,5 @@
-(** C08 — forwarding headers (proxy/http_headers.go, proxy/http_proxy.go ServeHTTP).
+(** C08 — forwarding headers (proxy/http_headers.go, proxy/http_proxy.go ServeHTTP),
+    the code as it is after the repairs afbb806 (F-C08-2) and 7dd13e1 (F-C08-1).
     This file contains only statements, [exact], and [Print Assumptions]. *)
 From Coq Require Import String List NArith ZArith Bool.
 From Fabio Require Import Lib.Outcome Lib.Bytes Model.Headers Model.HeadersSpec Proofs.Headers.
@@ -111,7 +112,7 @@ Print Assumptions C08_xff_last_is_peer.
 Theorem C08_serve_preserves : forall cfg t uuid r up sts k,
   serve cfg t uuid r = Ok (up, sts) -> wf_hdr (r_hdr r) = true ->
   exists peer h, r_peer r = Some peer /\
-    add_headers cfg (t_strip t) (req_after_rewrite cfg t uuid r) = Ok h /\
+    add_headers cfg (t_strip t) (req_with_reqid cfg uuid r) = Ok h /\
     (k <> K_XFF -> mem k hop_headers = false ->
      (takes_ws_path h = true \/ forall x, In x (conn_tokens h) -> canon_key x <> k) ->
      hfind up k = hfind h k).
@@ -131,24 +132,35 @@ Print Assumptions C08_serve_sts_clause.
 
 (* ALL clauses of the property (client-IP header, X-Forwarded-For, X-Real-Ip, TLS header,
    X-Forwarded-Proto/-Port/-Host, Forwarded) hold at the upstream for every client header map a
-   client can produce, every request and every sane configuration outside the three open finding
-   regions (host= rewrite, ClientIPHeader = X-Real-Ip, Connection naming a managed header) (this is the boolean the correspondence run evaluates on the real code's output). *)
+   client can produce, every request and every sane configuration outside the two open finding
+   regions (ClientIPHeader = X-Real-Ip, Connection naming a managed header); every route
+   target, host= / host=dst included, since the repair 7dd13e1 (this is the boolean the correspondence run evaluates on the real code's output). *)
 Theorem C08_all_clauses_on_domain : forall cfg t uuid r peer up sts,
   cfg_sane cfg = true -> wf_hdr (r_hdr r) = true ->
-  no_region cfg t (r_hdr r) (r_host r) = true ->
+  no_region cfg (r_hdr r) = true ->
   serve cfg t uuid r = Ok (up, sts) -> r_peer r = Some peer ->
-  all_hold (clauses cfg (r_hdr r) peer (r_host r) (is_tls r) false true up) = true.
+  all_hold (clauses cfg (r_hdr r) peer (r_host r) (is_tls r) true up) = true.
 Proof. exact serve_clauses_on_domain. Qed.
 Print Assumptions C08_all_clauses_on_domain.
+
+(* X-Forwarded-Host / -Port describe the host the client asked for whatever the route's host=
+   option says (no region 1 any more: the rewrite of r.Host runs after addHeaders, 7dd13e1). *)
+Theorem C08_serve_host_port_truthful : forall cfg t uuid r peer up sts,
+  cfg_sane cfg = true -> wf_hdr (r_hdr r) = true -> no_region cfg (r_hdr r) = true ->
+  serve cfg t uuid r = Ok (up, sts) -> r_peer r = Some peer ->
+  (hget (r_hdr r) K_XFH = [] -> r_host r <> [] -> hfind up K_XFH = Some [r_host r]) /\
+  (hget (r_hdr r) K_XFPORT = [] -> hfind up K_XFPORT = Some [local_port (r_host r) (is_tls r)]).
+Proof. exact serve_host_port_truthful. Qed.
+Print Assumptions C08_serve_host_port_truthful.
 
 Theorem C08_clauses_nonvacuous :
   let hdr := [(K_XFF, [bs "6.6.6.6"; bs "7.7.7.7"]); (bs "X-Client-Ip", [bs "6.6.6.6"; bs "8.8.8.8"]);
               (bs "X-Tls", [bs "true"]); (K_XRI, [[]; bs "6.6.6.6"]); (K_CONN, [bs "keep-alive, X-Forwarded-For"])] in
   let r := ex_req None hdr in
   exists up sts,
-    cfg_sane ex_cfg = true /\ wf_hdr hdr = true /\ no_region ex_cfg (ex_tgt []) hdr (r_host r) = true /\
+    cfg_sane ex_cfg = true /\ wf_hdr hdr = true /\ no_region ex_cfg hdr = true /\
     serve ex_cfg (ex_tgt []) [] r = Ok (up, sts) /\
-    all_hold (clauses ex_cfg hdr ex_peer (r_host r) false false true up) = true /\
+    all_hold (clauses ex_cfg hdr ex_peer (r_host r) false true up) = true /\
     hfind up K_XFF = Some [bs "1.2.3.4"] /\ hfind up (bs "X-Client-Ip") = Some [ex_peer] /\
     hfind up (bs "X-Tls") = None /\ hfind up K_XRI = Some [ex_peer].
 Proof. exact clauses_nonvacuous. Qed.
@@ -156,17 +168,31 @@ Print Assumptions C08_clauses_nonvacuous.
 
 (* ---------------- refutations (each reproduced on the real code by the harness) ---------------- *)
 
-(* F-C08-1: with a host= option X-Forwarded-Host/-Port describe the option's value *)
+(* F-C08-1, REPAIRED in /repo by 7dd13e1: with a host= option X-Forwarded-Host/-Port described
+   the option's value.  The statement is about the order ServeHTTP had before the repair
+   ([serve_host_first_unrepaired]: r.Host rewritten before addHeaders); the same witness on the
+   current model follows ([C08_xfh_after_host_rewrite_repaired]). *)
 Theorem C08_xfh_after_host_rewrite_refuted :
   exists cfg t uuid r up sts,
     cfg_sane cfg = true /\ wf_hdr (r_hdr r) = true /\
-    serve cfg t uuid r = Ok (up, sts) /\
+    serve_host_first_unrepaired cfg t uuid r = Ok (up, sts) /\
     hget (r_hdr r) K_XFH = [] /\ hget (r_hdr r) K_XFPORT = [] /\
     F_host_rewrite t (r_host r) = true /\
     hfind up K_XFH = Some [bs "backend.internal:8500"] /\ hfind up K_XFPORT = Some [bs "8500"] /\
     cl_host (r_host r) up = false /\ cl_port (r_host r) (is_tls r) up = false.
 Proof. exact xfh_after_host_rewrite_refuted. Qed.
 Print Assumptions C08_xfh_after_host_rewrite_refuted.
+
+Theorem C08_xfh_after_host_rewrite_repaired :
+  let t := ex_tgt (bs "backend.internal:8500") in
+  let r := ex_req None [(bs "Accept", [bs "*/*"])] in
+  exists up sts,
+    serve ex_cfg t [] r = Ok (up, sts) /\ F_host_rewrite t (r_host r) = true /\
+    hfind up K_XFH = Some [bs "example.com"] /\ hfind up K_XFPORT = Some [bs "80"] /\
+    cl_host (r_host r) up = true /\ cl_port (r_host r) (is_tls r) up = true /\
+    upstream_host ex_cfg t [] r = Ok (bs "backend.internal:8500").
+Proof. exact xfh_after_host_rewrite_repaired. Qed.
+Print Assumptions C08_xfh_after_host_rewrite_repaired.
 
 (* F-C08-2, REPAIRED in /repo by afbb806: Upgrade: Websocket got no X-Forwarded-For entry.
    The statement is about the definitions as they were before the repair ([serve_unrepaired]);
